@@ -17,7 +17,7 @@ SHARDS = {"quick": 8, "thorough": 16}
 RULE = ("every Command subclass with every constructor/attribute value in its domain (GetState x 3 temperature types, "
         "GetCapabilities x 2 pages, ToggleDisplay x beep, energy, humidity, GetProperties over all 4096 subsets of the 12 "
         "property ids in several orders, SetProperties over every non-empty subset of the 9 encodable ids with generated "
-        "values, SetState over C10's domain), one run of 70 000 (quick) / 200 000 (thorough) commands in a single process, sequences of 300..700 mixed commands (constructed one by one or all constructed before the first is emitted), and every public AirConditioner operation "
+        "values, SetState over C10's domain), one run of 70 000 (quick) / 200 000 (thorough) commands in a single process, sequences with refused writes (unsupported property ids: NotImplementedError, nothing emitted) in between, sequences of 300..700 mixed commands (constructed one by one or all constructed before the first is emitted), and every public AirConditioner operation "
         "against the model device under generated capability profiles (the unit protecting its own response bodies with CRC-8 or with the additive check), optionally with some commands left unanswered (the ids seen on the wire must still chain), or with two devices of the same process operated concurrently (the commands of both, in wire order, must chain). A third of the device histories run with logging configured as in a real application (WARNING or DEBUG level, records formatted). Command objects may also be constructed first and emitted in any order, and the same object more than once (every emission is a command). Oracle: strict independent frame parser (0xAA, length "
         "byte == len-1, appliance 0xAC, frame type 0x02 for the two write commands else 0x03, body = [documented command id ... "
         "message id, bitwise CRC-8], two's complement checksum), the model's conformance parser accepts the body, message ids "
@@ -57,7 +57,7 @@ def build(spec: dict):
         return C.GetHumidityCommand()
     if k == "get_props":
         return C.GetPropertiesCommand([C.PropertyId(p) for p in spec["ids"]])
-    if k == "set_props":
+    if k in ("set_props", "set_props_refused"):
         return C.SetPropertiesCommand({C.PropertyId(p): v for p, v in spec["props"]})
     if k == "set_state":
         s = spec["state"]
@@ -150,8 +150,14 @@ def check_case(case: dict):
         cmd = prebuilt[idx] if prebuilt is not None else build(spec)
         try:
             frame = cmd.tobytes()
+        except NotImplementedError as e:
+            if spec["k"] == "set_props_refused":
+                continue         # a write the codec documents as unsupported: refused, nothing is emitted - the ids of what *is* emitted still chain
+            return (f"tobytes/raises/{type(e).__name__}", f"{spec['k']}: {e!r}")
         except Exception as e:
             return (f"tobytes/raises/{type(e).__name__}", f"{spec['k']}: {e!r}")
+        if spec["k"] == "set_props_refused":
+            return ("refused-write-emitted", f"a property write the codec documents as unsupported produced a frame: {frame.hex()}")
         v = verify_frame(frame, spec["k"])
         if v:
             return v
@@ -392,6 +398,16 @@ def run(ctx) -> None:
             case = {"specs": specs[:120], "emit": em}
         ctx.check(case, lambda c: _run_one(ctx, c))
     ctx.sweep("id-wrapping sequences", nseq, True)
+    # refused writes in between: a property write for an id the codec documents as unsupported raises NotImplementedError and emits
+    # nothing; the ids of the commands that are emitted before and after it still advance by one
+    unsupported = [p for p in ALL_PIDS if p not in ENC_PIDS]
+    for j, pid in enumerate(unsupported):
+        if ctx.mine(j + 7):
+            ref = {"k": "set_props_refused", "props": [[pid, 1]]}
+            mixed = {"k": "set_props_refused", "props": [[ENC_PIDS[0], 1], [pid, 1]]}
+            specs = [singles[0], singles[1], ref, singles[2], ref, ref, singles[3], mixed, singles[4], singles[-1], ref] * 6
+            ctx.check({"specs": specs, "prebuild": j % 2 == 1}, lambda c: _run_one(ctx, c))
+    ctx.sweep("refused property writes between emitted commands", len(unsupported), True)
     # every command kind emitted three times from the same object, and in reverse construction order
     base = singles[:9] + singles[-3:]
     for j, em in enumerate(([i for i in range(len(base)) for _ in range(3)], list(range(len(base) - 1, -1, -1)), [0] * 300)):
